@@ -107,8 +107,8 @@ func (h *Handler) spoofLoop(addr packet.Addr) {
 		// i.e. tell target I am 192.168.0.1
 		err := h.AnnounceTo(targetAddr.MAC, h.session.NICInfo.RouterAddr4.IP)
 		if err != nil {
+			// try again next cycle: returning here would leave the target in the hunt list with no loop to restore it
 			Logger.Msg("error send announcement packet").Struct(targetAddr).Error(err).Write()
-			return
 		}
 
 		if nTimes%16 == 0 { // minimise logging
